@@ -5,5 +5,7 @@ cd "$(dirname "$0")/.."
 rm -rf vm/obj vm/sxvm
 sh vm/build.sh
 test -x vm/sxvm
+REPO=${YAEP_REPO:-/repo}
+cc -w -I harness -I spec -I $REPO/src bin/catcheck.c -o vm/obj/catcheck && vm/obj/catcheck
 mkdir -p evidence/replays
 echo "setup ok"
